@@ -216,7 +216,7 @@ def shard_random(n, sd):
     @seed(sd)
     @settings(max_examples=n, database=None, deadline=None, phases=(Phase.generate,),
               suppress_health_check=list(HealthCheck), report_multiple_bugs=False)
-    @given(st.one_of(gen.block(min_len=1, max_len=34, profile=SPLITTY), gen.block(min_len=16, max_len=32, profile=gen.MEM_PROFILE),
+    @given(st.one_of(gen.block(min_len=1, max_len=34, profile=SPLITTY), gen.block(min_len=16, max_len=32, profile=gen.MEM_PROFILE), gen.operand_split_block(),
                      gen.corpus_block()), st.sampled_from(MODES), st.sampled_from(options.RULES))
     def prop(instrs, mode, rules):
         argv = ["-greedy"] + mode + rules
